@@ -147,7 +147,7 @@ func (h *H) drawCase(rt *rapid.T, prop string, excl map[string]int) *core.Case {
 		s.Prior = g.Pick([]string{"absent", "bytes", "good", "longer", "longer"})
 		s.Rm = g.Chance(35)
 		faults := []string{"none", "none", "none", "none", "none", "none", "noargs", "onearg", "srcmissing", "srcempty", "syntaxerr", "typeerr", "twopkgs", "badarg", "badarg", "badarg",
-			"mkdirfail", "outisdir", "outisemptydir", "immutable", "immutabledir", "longname", "rmfail", "fsize", "stdout", "badarg-stdout"}
+			"mkdirfail", "outisdir", "outisemptydir", "immutable", "immutabledir", "longname", "rmfail", "fsize", "stdout", "badarg-stdout", "stdoutfull"}
 		s.Fault = g.Pick(faults)
 		if s.Fault == "fsize" && h.Open["F-J"] {
 			excl["F-J"]++
@@ -176,7 +176,7 @@ func (h *H) drawCase(rt *rapid.T, prop string, excl map[string]int) *core.Case {
 		default:
 			s.OutRel = dir + "/sub/" + name
 		}
-		if s.Fault == "stdout" || s.Fault == "badarg-stdout" {
+		if s.Fault == "stdout" || s.Fault == "badarg-stdout" || s.Fault == "stdoutfull" {
 			s.OutRel = ""
 			s.Rm = false
 			s.Prior = "absent"
@@ -205,6 +205,11 @@ func (h *H) drawCase(rt *rapid.T, prop string, excl map[string]int) *core.Case {
 		if s.Fault == "rmfail" {
 			s.Rm = true
 		}
+	}
+	// -out is given relative to the working directory in 40% of the cases
+	if g.Chance(40) {
+		c.Cfg.RelOut = true
+		c.AddLabel("out:relative")
 	}
 	c.Scenario = s.toMap()
 	c.AddLabel("fault:" + s.Fault)
